@@ -86,6 +86,15 @@ CLAIMS = {
         note=TB + "the theorem's join-back uses NULL-safe equality; the engine uses `=` (known finding F37); plan_subquery.rs itself is tied by the differential runs, not modelled rule by rule.",
         technique="Lean proof (magic-set decorrelation identity) + correlated-subquery differential against nested evaluation (Sem)",
         design="5/C09"),
+    "C20": dict(
+        text=("Props/C20.lean: for every pattern without escapes, the equality, prefix (lits%), suffix (%lits) and contains (%lits%) rewrites accept exactly the strings the LIKE denotation `likeMatch` "
+              "accepts (like_plain_is_equality, like_prefix, like_suffix, like_contains - induction over pattern and string, unbounded); escapes and newlines need the general matcher (witness theorems for the "
+              "two repaired defects); laws of left/right/repeat/reverse/substring on code points. Tie: all short patterns over {a,b,é,%,_,\\,.} + longer ones with inner wildcards x strings (multi-byte, newline, "
+              ">12 bytes) in three contexts (constant pattern with optimizer on / off, pattern from a column) against likeMatch; 1500+ string-function calls (negative/zero/large counts, 2-4 byte code points, "
+              "inline and heap strings) against Core/Str.lean."),
+        note=TB + "the `regex` crate is modelled only through the LIKE fragment; regexp_*, upper/lower/initcap and md5 are not modelled.",
+        technique="Lean proof (LIKE rewrite classes = denotation, by induction) + three-context differential of LIKE and string functions",
+        design="5/C20"),
 }
 
 NOT_YET = {
